@@ -243,6 +243,7 @@ impl TemplateCache {
 #[derive(Debug, Clone, Hash, PartialEq, Eq)]
 struct CacheKey {
     input_hash: u64,
+    input: String,
     ops_signature: String,
 }
 
@@ -884,6 +885,7 @@ impl MultiTemplate {
 
         let key = CacheKey {
             input_hash,
+            input: input.to_string(),
             ops_signature: format!("{ops:?}"),
         };
 
